@@ -132,6 +132,17 @@ def check(repo, ctx, index, purity):
                 v = inline(st.value, defs)
                 if isinstance(v, ast.Call) and U.call_name(v) in ('np.zeros', 'np.zeros_like'):
                     continue
+                # a value handed over by a generator / iterator of the class (for .., term in <call>: Y.fconc[..] = term):
+                # the expression lives in another function and is not followed
+                gen_t = None
+                if isinstance(v, ast.Name):
+                    for lp_ in ast.walk(loop):
+                        if isinstance(lp_, ast.For) and any(isinstance(n_, ast.Name) and n_.id == v.id for n_ in ast.walk(lp_.target)) \
+                                and any(isinstance(c_, ast.Call) and isinstance(c_.func, ast.Attribute) and (U.call_name(c_) or '').startswith('self.') for c_ in ast.walk(lp_.iter)):
+                            gen_t = lp_
+                if gen_t is not None:
+                    ctx.undecided('R1.2', EULER, q, st, f'the precipitate content stored here is produced by {U.src(gen_t.iter)[:60]} (an iterator of the class): its terms are not followed into that function')
+                    continue
                 n_sites += 1
                 # incremental form: previous + increment
                 if isinstance(v, ast.BinOp) and isinstance(v.op, ast.Add):
